@@ -120,7 +120,7 @@ instance (s : Spec.SPos) (m : Spec.SMove) : Decidable (StepOK s m) :=
     ((s.board.length = 64 ∧ s.side ≤ 1 ∧ s.castling < 16 ∧ RightsInv s.board s.castling ∧ m.src < 64 ∧ m.dst < 64 ∧ m.src ≠ m.dst) ∧
      (gd s.board m.src ≠ 0 ∧ gd s.board m.src = mkPiece s.side (kindOf (gd s.board m.src))) ∧
      (gd s.board m.dst ≠ 0 → gd s.board m.dst = mkPiece (1 - s.side) (kindOf (gd s.board m.dst))) ∧
-     (m.promo < 8 ∧ (m.promo ≠ 0 → kindOf (gd s.board m.src) = PAWN ∧ m.dst ≠ s.ep)) ∧
+     (m.promo < 7 ∧ (m.promo ≠ 0 → kindOf (gd s.board m.src) = PAWN ∧ m.dst ≠ s.ep)) ∧
      (kindOf (gd s.board m.src) = PAWN →
        (s.side = 0 → (m.dst = m.src + 8 ∨ (m.dst = m.src + 16 ∧ m.src / 8 = 1) ∨ ((m.dst = m.src + 7 ∨ m.dst = m.src + 9) ∧ m.dst / 8 = m.src / 8 + 1))) ∧
        (s.side = 1 → (m.dst + 8 = m.src ∨ (m.dst + 16 = m.src ∧ m.src / 8 = 6) ∨ ((m.dst + 7 = m.src ∨ m.dst + 9 = m.src) ∧ m.dst / 8 + 1 = m.src / 8)))) ∧
